@@ -35,6 +35,41 @@ def call_graph_cycles(rep):
                                 f'deep input or deep results exhaust the Python stack', f'{rel}:{root}'))
 
 
+def driver_step_cost(rep):
+    """depth is limited by memory only: one step of the driver loop costs the same whatever the number of suspended
+    rules - the loop body never iterates over (or searches) its own stack, which would make every rule call cost
+    time proportional to the current depth (quadratic in the nesting of the input)"""
+    from .. import trampoline
+    for what, tree, rel in routes.runtime_subjects():
+        name, fn, call = trampoline.find_trampoline(tree, what)
+        loops = [n for n in ast.walk(fn) if isinstance(n, ast.While)]
+        # the stack: the list whose last element's generator is resumed / that is appended to and popped
+        stacks = {n.func.value.id for l in loops for n in ast.walk(l) if isinstance(n, ast.Call)
+                  and isinstance(n.func, ast.Attribute) and n.func.attr in ('append', 'pop')
+                  and isinstance(n.func.value, ast.Name)}
+        rep.count('driver loops examined for per-step cost', len(loops))
+        for l in loops:
+            for n in ast.walk(l):
+                its = []
+                if isinstance(n, ast.For):
+                    its.append(n.iter)
+                if isinstance(n, ast.comprehension):
+                    its.append(n.iter)
+                if isinstance(n, ast.Compare) and any(isinstance(o, (ast.In, ast.NotIn)) for o in n.ops):
+                    its += [c for c in n.comparators]
+                if isinstance(n, ast.Call) and isinstance(n.func, ast.Attribute) and n.func.attr in ('index', 'count'):
+                    its.append(n.func.value)
+                for it in its:
+                    hit = [x.id for x in ast.walk(it) if isinstance(x, ast.Name) and x.id in stacks]
+                    rep.oblige(not hit)
+                    if hit:
+                        rep.add(Finding('DRIVER-step-constant', f'{rel}:{name}', '',
+                                        f'{what}: the driver loop walks its own stack `{hit[0]}` on a step '
+                                        f'(`{ast.unparse(n)[:70]}`): every rule call costs time proportional to the number '
+                                        f'of suspended rules, so parse time grows with the square of the nesting depth - '
+                                        f'depth is no longer limited by memory only', f'{rel}:{name}'))
+
+
 def implicit_recursion(rep):
     """hashing and comparing parsed objects is structural, hence recursive over the whole subtree:
     the iterative walkers (which every successful parse runs over its result) may put only id()s
@@ -116,6 +151,7 @@ def run(rep, tier):
         ('WIRE-ctx-param', 'in the context convention a rule function or helper that mentions _ctx receives it '
                            'as a parameter (the module global is the defining grammar, not the one being parsed)'),
         ('NO-recursion', 'no direct rule calls; driver and walkers are cycle-free'),
+        ('DRIVER-step-constant', 'a step of the driver loop never iterates over or searches its own stack'),
         ('ROUTE-raises', 'the deep-nesting route compiles'),
     ]:
         rep.rule(rid, txt)
@@ -125,6 +161,7 @@ def run(rep, tier):
     rep.count('spill helper invocations examined', stats.get('spills', 0))
     rep.floor('spill helper invocations examined', stats.get('spills', 0), 2)
     call_graph_cycles(rep)
+    driver_step_cost(rep)
     implicit_recursion(rep)
     rule_calls_are_requests(rep)
     from .. import controls
